@@ -2,6 +2,7 @@ package props
 
 import (
 	"fmt"
+	"github.com/llir/llvm/ir/enum"
 	"math/rand"
 	"reflect"
 	"strings"
@@ -50,6 +51,8 @@ func genC06(ctx *fw.Ctx) []fw.Case {
 		cases = append(cases, fw.Case{ID: "corpus/" + s.ID, Run: func(r *fw.Rec) { c06Corpus(r, s) }})
 	}
 	cases = append(cases, fw.Case{ID: "api/address-space-edited-after-query", Run: c06AddrSpaceEdits})
+	cases = append(cases, fw.Case{ID: "text/aggregate-index-spellings", Run: c06IndexSpellings})
+	cases = append(cases, fw.Case{ID: "api/results-reread-after-later-constructions", Run: c06BuildThenReread})
 	return cases
 }
 
@@ -688,4 +691,182 @@ func c06AddrSpaceEdits(r *fw.Rec) {
 		r.Nontrivial(key)
 		r.Tally("api", "address-space-edit:"+st.name)
 	}
+}
+
+// c06IndexSpellings: extractvalue / insertvalue indices and struct indices of
+// getelementptr are decimal numbers however they are spelled (010 is ten). A
+// struct of 13 fields of pairwise different types makes the field reached show
+// in the result type; every result is used at the type of the field the decimal
+// reading selects, so LLVM's acceptance validates the expectation.
+func c06IndexSpellings(r *fw.Rec) {
+	fields := []string{"i1", "i8", "i16", "i32", "i64", "half", "float", "double", "i24", "fp128", "x86_fp80", "i8*", "<2 x i8>"}
+	T := "{ " + strings.Join(fields, ", ") + " }"
+	spell := func(i int, k int) string {
+		switch k % 4 {
+		case 0:
+			return fmt.Sprintf("%d", i)
+		case 1:
+			return fmt.Sprintf("0%d", i)
+		case 2:
+			return fmt.Sprintf("000%d", i)
+		}
+		return fmt.Sprintf("00000000000000000000%d", i)
+	}
+	var sb strings.Builder
+	fmt.Fprintf(&sb, "%%T = type %s\n", T)
+	type exp struct{ name, typ string }
+	var exps []exp
+	sb.WriteString("define void @f(%T %x, %T* %p, [12 x %T] %arr) {\n")
+	for i, ft := range fields {
+		for k := 0; k < 4; k++ {
+			n := fmt.Sprintf("ev%d_%d", i, k)
+			fmt.Fprintf(&sb, "  %%%s = extractvalue %%T %%x, %s\n", n, spell(i, k))
+			fmt.Fprintf(&sb, "  %%iv%d_%d = insertvalue %%T %%x, %s %%%s, %s\n", i, k, ft, n, spell(i, k+1))
+			fmt.Fprintf(&sb, "  %%av%d_%d = extractvalue [12 x %%T] %%arr, %s, %s\n", i, k, spell(11-i%12, k), spell(i, k+2))
+			fmt.Fprintf(&sb, "  %%gp%d_%d = getelementptr %%T, %%T* %%p, i32 %s, i32 %s\n", i, k, spell(0, k), spell(i, k))
+			fmt.Fprintf(&sb, "  store %s %%av%d_%d, %s* %%gp%d_%d\n", ft, i, k, ft, i, k)
+			exps = append(exps, exp{n, ft}, exp{fmt.Sprintf("av%d_%d", i, k), ft}, exp{fmt.Sprintf("gp%d_%d", i, k), ft + "*"}, exp{fmt.Sprintf("iv%d_%d", i, k), "%T"})
+		}
+	}
+	sb.WriteString("  ret void\n}\n")
+	x := sb.String()
+	if ok, msg, err := llvmref.Accepts(x); err != nil || !ok {
+		r.Inconclusive("index-spelling module rejected by LLVM (monitor at fault): " + firstLine(lastDiag(msg)))
+		return
+	}
+	m, perr, pmsg := parseGuard("c06-index-spellings", x)
+	if pmsg != "" || perr != nil {
+		what := pmsg
+		if perr != nil {
+			what = perr.Error()
+		}
+		r.Violate(fw.Violation{Key: "index-spelling/rejected", Input: x, What: "a module of aggregate indices with leading zeros, which LLVM accepts with every result used at the type of the field the decimal reading selects, is rejected: " + firstLine(what)})
+		return
+	}
+	vals := map[string]value.Value{}
+	for _, inst := range m.Funcs[0].Blocks[0].Insts {
+		if n, ok := inst.(value.Named); ok {
+			vals[n.Name()] = n
+		}
+	}
+	for _, e := range exps {
+		r.Eval(1)
+		v := vals[e.name]
+		if v == nil {
+			continue
+		}
+		got := v.Type().String()
+		recomputed := ""
+		if rt, had, _ := recomputeType(v); had && rt != nil {
+			recomputed = rt.String()
+		}
+		if got != e.typ || (recomputed != "" && recomputed != e.typ) {
+			r.Violate(fw.Violation{Key: "index-spelling/wrong-type", Input: x, What: fmt.Sprintf("%%%s: the parser reports %s, recomputed from the operands %s, LLVM's rules (validated by llvm-as on this module) give %s", e.name, got, recomputed, e.typ)})
+			return
+		}
+	}
+	r.NontrivialN("index-spellings", len(exps))
+	r.TallyN("index_spellings", "results-checked", len(exps))
+}
+
+// c06BuildThenReread builds, through the constructors, instructions whose
+// result type is computed from the operands - several of each kind with
+// different operand types - and reads every result type again after all have
+// been built: a type computed once must not change because a later instruction
+// of the same kind was built with other operands.
+func c06BuildThenReread(r *fw.Rec) {
+	m := ir.NewModule()
+	scal := []types.Type{types.I8, types.I16, types.I32, types.I64, types.I128, types.Float, types.Double, types.NewPointer(types.I8), types.NewPointer(types.NewPointer(types.I32))}
+	var params []*ir.Param
+	for i, t := range scal {
+		params = append(params, ir.NewParam(fmt.Sprintf("s%d", i), t), ir.NewParam(fmt.Sprintf("p%d", i), types.NewPointer(t)),
+			ir.NewParam(fmt.Sprintf("v%d", i), types.NewVector(uint64(2+i), t)), ir.NewParam(fmt.Sprintf("a%d", i), types.NewStruct(t, types.NewArray(uint64(1+i), t))))
+	}
+	f := m.NewFunc("f", types.Void, params...)
+	b := f.NewBlock("entry")
+	type made struct {
+		what string
+		v    value.Value
+		want string
+	}
+	var all []made
+	add := func(what string, want string, mk func() value.Value) {
+		var v value.Value
+		if p, msg, _ := fw.Guard(func() { v = mk() }); p {
+			r.Violate(fw.Violation{Key: "reread/constructor-panics/" + strings.SplitN(what, " ", 2)[0], What: what + ": " + firstLine(msg)})
+			return
+		}
+		all = append(all, made{what, v, want})
+	}
+	isInt := func(t types.Type) bool { _, ok := t.(*types.IntType); return ok }
+	isFP := func(t types.Type) bool { _, ok := t.(*types.FloatType); return ok }
+	for i, t := range scal {
+		s, p, v, a := params[4*i], params[4*i+1], params[4*i+2], params[4*i+3]
+		ts := t.String()
+		if isInt(t) || !isFP(t) {
+			if isInt(t) {
+				add("cmpxchg "+ts, "{ "+ts+", i1 }", func() value.Value {
+					return b.NewCmpXchg(p, s, s, enum.AtomicOrderingSequentiallyConsistent, enum.AtomicOrderingSequentiallyConsistent)
+				})
+				add("atomicrmw "+ts, ts, func() value.Value { return b.NewAtomicRMW(enum.AtomicOpAdd, p, s, enum.AtomicOrderingMonotonic) })
+				add("icmp "+ts, "i1", func() value.Value { return b.NewICmp(enum.IPredEQ, s, s) })
+				add("icmp vector "+ts, fmt.Sprintf("<%d x i1>", 2+i), func() value.Value { return b.NewICmp(enum.IPredULT, v, v) })
+			} else {
+				add("cmpxchg "+ts, "{ "+ts+", i1 }", func() value.Value {
+					return b.NewCmpXchg(p, s, s, enum.AtomicOrderingAcquire, enum.AtomicOrderingMonotonic)
+				})
+			}
+		} else {
+			add("fcmp "+ts, "i1", func() value.Value { return b.NewFCmp(enum.FPredOLT, s, s) })
+			add("fcmp vector "+ts, fmt.Sprintf("<%d x i1>", 2+i), func() value.Value { return b.NewFCmp(enum.FPredUNE, v, v) })
+		}
+		add("load "+ts, ts, func() value.Value { return b.NewLoad(t, p) })
+		add("alloca "+ts, ts+"*", func() value.Value { return b.NewAlloca(t) })
+		add("extractelement "+ts, ts, func() value.Value { return b.NewExtractElement(v, constant.NewInt(types.I32, 0)) })
+		add("insertelement "+ts, v.Type().String(), func() value.Value { return b.NewInsertElement(v, s, constant.NewInt(types.I32, 1)) })
+		add("shufflevector "+ts, fmt.Sprintf("<3 x %s>", ts), func() value.Value {
+			return b.NewShuffleVector(v, v, constant.NewVector(types.NewVector(3, types.I32), constant.NewInt(types.I32, 0), constant.NewInt(types.I32, 1), constant.NewInt(types.I32, 0)))
+		})
+		add("extractvalue "+ts, ts, func() value.Value { return b.NewExtractValue(a, 0) })
+		add("extractvalue nested "+ts, ts, func() value.Value { return b.NewExtractValue(a, 1, 0) })
+		add("insertvalue "+ts, a.Type().String(), func() value.Value { return b.NewInsertValue(a, s, 0) })
+		add("getelementptr "+ts, ts+"*", func() value.Value { return b.NewGetElementPtr(t, p, constant.NewInt(types.I64, 1)) })
+		add("getelementptr struct "+ts, ts+"*", func() value.Value {
+			ap := b.NewAlloca(a.Type())
+			return b.NewGetElementPtr(a.Type(), ap, constant.NewInt(types.I32, 0), constant.NewInt(types.I32, 1), constant.NewInt(types.I64, 0))
+		})
+		add("select "+ts, ts, func() value.Value { return b.NewSelect(constant.True, s, s) })
+		add("phi "+ts, ts, func() value.Value { return b.NewPhi(ir.NewIncoming(s, b)) })
+		add("bitcast pointer "+ts, "i8*", func() value.Value { return b.NewBitCast(p, types.I8Ptr) })
+		add("freeze "+ts, ts, func() value.Value {
+			fr := &ir.InstFreeze{X: s}
+			b.Insts = append(b.Insts, fr)
+			return fr
+		})
+		add("va_arg "+ts, ts, func() value.Value { return b.NewVAArg(params[4*7], t) })
+	}
+	b.NewRet(nil)
+	// read every type twice: right now (all have been built), and once more after a print
+	for pass := 0; pass < 2; pass++ {
+		for _, x := range all {
+			r.Eval(1)
+			var got string
+			if p, msg, _ := fw.Guard(func() { got = x.v.Type().String() }); p {
+				r.Violate(fw.Violation{Key: "reread/type-panics", What: x.what + ": " + firstLine(msg)})
+				return
+			}
+			if got != x.want {
+				r.Violate(fw.Violation{Key: "reread/" + strings.SplitN(x.what, " ", 2)[0], What: fmt.Sprintf("%s built through its constructor has type %s when read after the later constructions (pass %d); the operands give %s", x.what, got, pass, x.want)})
+				return
+			}
+		}
+		if pass == 0 {
+			if _, pp := printGuard(m); pp != "" {
+				r.Inconclusive("the reread module cannot be printed: " + firstLine(pp))
+				return
+			}
+		}
+	}
+	r.NontrivialN("reread", len(all))
+	r.TallyN("reread", "results-checked-after-later-constructions", len(all))
 }
